@@ -263,7 +263,41 @@ func reshape(a, b Ver) string {
 	return ""
 }
 
-func globalSrc(k int, v int64) string { return fmt.Sprintf("(defvar *@g%d* %d)", k, v) }
+// gkinds holds Case.GKind of the case under execution (nil: every global is a defvar).
+var gkinds []string
+
+func globalSrc(k int, v int64) string {
+	kind := "defvar"
+	if k < len(gkinds) {
+		kind = gkinds[k]
+	}
+	return fmt.Sprintf("(%s *@g%d* %d)", kind, k, v)
+}
+
+// pickGKinds: how each global is defined when the globals come after the functions.
+func pickGKinds(r *rand.Rand, c *Case) {
+	text := c.Main
+	for _, fn := range c.Fns {
+		for _, v := range fn.Vers {
+			text += " " + v.Body
+		}
+	}
+	for _, m := range c.Macs {
+		text += " " + strings.Join(m.Vers, " ")
+	}
+	for _, st := range c.Hist {
+		text += " " + st.Op
+	}
+	c.GKind = nil
+	for k := range c.Globals {
+		// not defparameter: the modes that evaluate the whole text again would reset the variable
+		kinds := []string{"defvar"}
+		if !strings.Contains(text, fmt.Sprintf("(setq *@g%d*", k)) {
+			kinds = append(kinds, "defconstant")
+		}
+		c.GKind = append(c.GKind, kinds[r.IntN(len(kinds))])
+	}
+}
 
 // ---- expectations from the reference evaluator ----
 
@@ -398,6 +432,10 @@ func genC(r *rand.Rand, i int, tier string) Case {
 	multi := i%2 == 1
 	c := genCase(r, noargs, multi)
 	c.Qual = i%5 == 2
+	if i%3 == 1 && 0 < len(c.Globals) {
+		c.GLast = true
+		pickGKinds(r, &c)
+	}
 	return c
 }
 
@@ -609,7 +647,8 @@ func exec(x *fw.Ctx, c Case) {
 		return
 	}
 	qualOn = c.Qual
-	defer func() { qualOn = false }()
+	gkinds = c.GKind
+	defer func() { qualOn, gkinds = false, nil }()
 	if c.Qual {
 		x.Cover("program:with-package-qualified-calls")
 		q := qualify(c.Main)
@@ -786,6 +825,9 @@ func exec(x *fw.Ctx, c Case) {
 		if c.Qual {
 			cell = "qualified=y " + cell
 		}
+		if c.GLast && !nested && mode != "premain" && !strings.HasPrefix(mode, "hist") {
+			cell = "globals-last=y " + cell
+		}
 		x.Cover("evals: " + cell)
 		kind, detail := judge(o, w)
 		if kind == "" {
@@ -838,8 +880,11 @@ func exec(x *fw.Ctx, c Case) {
 			x.Cover("mode:" + mode)
 			w := newWorld(slipBudget)
 			var forms []string
-			for k, v := range c.Globals {
-				forms = append(forms, w.name(globalSrc(k, v)))
+			glast := c.GLast && !nested
+			if !glast {
+				for k, v := range c.Globals {
+					forms = append(forms, w.name(globalSrc(k, v)))
+				}
 			}
 			if !macrosLast {
 				for k, mac := range c.Macs {
@@ -852,6 +897,14 @@ func exec(x *fw.Ctx, c Case) {
 			if macrosLast {
 				for k, mac := range c.Macs {
 					forms = append(forms, w.name(macroSrc(k, mac, 0)))
+				}
+			}
+			if glast {
+				// the variables the functions refer to are defined after them
+				x.Cover("order:globals-after-functions")
+				for k, v := range c.Globals {
+					forms = append(forms, w.name(globalSrc(k, v)))
+					x.Cover("global-defined-late-by:" + strings.Fields(globalSrc(k, v))[0][1:])
 				}
 			}
 			mainSrc := w.name(c.Main)
